@@ -30,6 +30,15 @@
 (*                    without a last extraction (a first record of exactly *)
 (*                    Cap bytes is therefore absent).                      *)
 (* Both satisfy "exact or absent".                                         *)
+(*                                                                         *)
+(* Time.  Send is an environment action with no deadline of its own: the   *)
+(* segments of one flight arrive whenever the network delivers them (a     *)
+(* retransmission, a radio link waking up), and the only clock that may    *)
+(* end the peek is the listener's handshake timeout, which ends the whole  *)
+(* connection.  A pause between two Sends is therefore a stuttering step:  *)
+(* the outcome set of a segmentation does not depend on arrival times.     *)
+(* PauseMs lists the pauses (below the handshake timeout) with which the   *)
+(* conformance harness re-runs segmentations against the real loop.        *)
 (***************************************************************************)
 EXTENDS Naturals, Sequences, FiniteSets, TLC
 
@@ -38,6 +47,7 @@ CONSTANTS
     SegsOf(_),      \* flight name -> set of segmentations (sequences of segment lengths; the last takes the rest)
     BytewiseOK(_)   \* flight name -> whether byte-at-a-time reads are explored for it
 
+PauseMs == << 700, 2500 >>   \* arrival-time classes replayed on the real loop (handshake timeout: 10 s)
 Cap == 16384            \* MAX_PREBUFFER_LEN
 Chunk == 1024           \* READ_CHUNK_LEN
 MaxRecordLen == 16640   \* tls-parser MAX_RECORD_LEN = (1 << 14) + 256
